@@ -41,7 +41,7 @@ def run(tier):
         configs = [("cxx", {}, []), ("cxx-cfi", {"F_CFI": True}, [])]
         if thorough:
             configs += [("cxx-nodebug", {"debug": False}, []), ("cxx-cfi-nodebug", {"F_CFI": True, "debug": False}, [])]
-        configs = [(n, o, a, K.fortran_cases(), True) for n, o, a in configs]
+        configs = [(n, o, a, K.fortran_cases(), "derived") for n, o, a in configs]
         # libraries out of the TLA+ grammar LibGen (specs/LibGen.tla), restricted to the rows the Fortran driver knows
         libs, rl = libgen.sample_libraries(400 if thorough else 12, common.seed())
         c.add_tlc(rl, "LibGen/simulate")
